@@ -14,6 +14,8 @@ from vlib import w as W
 from vlib.core import Ob
 
 PROPERTY_ID = "C04"
+ENGINE = 'E1 CrossHair 0.0.110 (z3) on the real code'
+TECHNIQUE = "CrossHair symbolic execution of the real get_features / make_feature / FeatureMap code over view histories (shard key) with symbolic spans, window, strand and offset, against the linear-scan definition of 'feature overlaps view'; all paths exhausted"
 CLAIM = (
     "for every one- or two-span feature on either strand, every annotation offset and every history in {[a:b], rc, [a:b].rc, rc[a:b], [a:b][c:d]} of a parent of length <= 5, "
     "get_features(allow_partial) returns the feature iff it overlaps (lies inside) the view's window, never raises, and the feature's non-lost spans denote exactly the original spans restricted to the window, on the right strand."
